@@ -203,23 +203,16 @@ Proof. split; lra. Qed.
 (** *** 7. (family scaling) what main() hands to the RF maps and the drift map, over the definitions GENERATED from
     main() on every run (Gen/Gen_Scaling.v, translate/scaling2coq.py: symbolic execution of main()'s set-up code;
     [gen_angle] is the expression that reaches the `angle` parameter of the linear RFKickMap / DynamicRFKickMap
-    constructors, [gen_slip] the three expressions of DriftMap's `slip` argument, [gen_steps] the denominator of
-    the angle, all inlined down to the options [L O_<getter>] and constants).  For every field, every
-    interpretation [O] of comparisons/sqrt/..., every option values [L]. *)
-From Inovesa Require Model.ScalingOps Gen.Gen_Scaling Proofs.ScalingP.
+    constructors, [gen_slip] the three expressions of DriftMap's `slip` argument, inlined down to the options
+    [L O_<getter>] and constants).  For every field, every interpretation [O] of comparisons/sqrt/..., every option
+    values [L]; a hypothesis such as [o_lt O 0 (L O_getStepsPerTrev) = false] says which branch of main() is taken. *)
+From Inovesa Require Model.ScalingOps Gen.Gen_Scaling Proofs.ScalingAngleP.
 Module ScalingFamily.   (* imports and scopes stay local to this block *)
-Import ScalingOps Gen_Scaling ScalingP.
+Import ScalingOps Gen_Scaling ScalingAngleP.
 Local Open Scope F_scope.
 
-(** the angle per step times the number of steps per synchrotron period is 2 pi (the orbit closes: section 6) *)
-Theorem C03_main_angle_times_steps :
-  forall (K : Fld) (O : Ops K) (L : leaf -> K) (B : bleaf -> bool),
-    gen_steps K O L B <> 0 -> gen_angle K O L B * gen_steps K O L B = L C_two_pi.
-Proof. exact angle_times_steps. Qed.
-Print Assumptions C03_main_angle_times_steps.
-
-(** ... where that number is the option StepsPerTs (when StepsPerRevolution is not positive and StepsPerTs >= 1):
-    angle = 2 pi / StepsPerTs, the statement of the property in terms of the configuration *)
+(** angle = 2 pi / StepsPerTs (StepsPerRevolution not positive, StepsPerTs >= 1): the statement of the property in terms
+    of the configuration; after StepsPerTs steps the phase has advanced by 2 pi (the orbit closes: section 6) *)
 Theorem C03_main_angle_is_two_pi_over_StepsPerTs :
   forall (K : Fld) (O : Ops K) (L : leaf -> K) (B : bleaf -> bool),
     o_lt O 0 (L O_getStepsPerTrev) = false -> o_lt O (L O_getStepsPerTsync) 1 = false ->
@@ -229,13 +222,15 @@ Theorem C03_main_angle_is_two_pi_over_StepsPerTs :
 Proof. exact angle_is_two_pi_over_StepsPerTs. Qed.
 Print Assumptions C03_main_angle_is_two_pi_over_StepsPerTs.
 
-(** with StepsPerRevolution > 0: steps per turn times turns per synchrotron period *)
-Theorem C03_main_steps_from_StepsPerRevolution :
+(** with StepsPerRevolution > 0 (and a given synchrotron frequency): StepsPerRevolution steps per turn times f_rev/f_s
+    turns per synchrotron period *)
+Theorem C03_main_angle_from_StepsPerRevolution :
   forall (K : Fld) (O : Ops K) (L : leaf -> K) (B : bleaf -> bool),
-    o_lt O 0 (L O_getStepsPerTrev) = true -> gen_fs K O L B <> 0 ->
-    gen_steps K O L B = L O_getStepsPerTrev * gen_f_rev K O L B / gen_fs K O L B.
-Proof. exact steps_from_StepsPerTrev. Qed.
-Print Assumptions C03_main_steps_from_StepsPerRevolution.
+    o_lt O 0 (L O_getStepsPerTrev) = true -> o_is0 O (L O_getSyncFreq) = false ->
+    L O_getStepsPerTrev <> 0 -> L O_getRevolutionFrequency <> 0 -> L O_getSyncFreq <> 0 ->
+    gen_angle K O L B * (L O_getStepsPerTrev * L O_getRevolutionFrequency / L O_getSyncFreq) = L C_two_pi.
+Proof. exact angle_from_StepsPerRevolution. Qed.
+Print Assumptions C03_main_angle_from_StepsPerRevolution.
 
 (** the drift map receives the same angle as its first slip factor, and for alpha1 = alpha2 = 0 the slip vector is
     [angle; 0; 0]: the parameters of [drift_off] in C03_drift_offsets_linear (section 2) are the generated ones *)
@@ -260,6 +255,7 @@ Print Assumptions C03_main_drift_is_linear.
 (** non-vacuity over Qc: StepsPerTs = 50, two_pi := 44/7 -> angle = 22/175; every other option 1 *)
 Example C03_main_angle_example :
   let L := fun l => match l with O_getStepsPerTsync => Q2Qc 50 | C_two_pi => Q2Qc (44 # 7) | O_getStepsPerTrev => 0%Qc | _ => 1%Qc end in
-  this (gen_angle QcF QcOps L (fun _ => false)) = (22 # 175)%Q /\ this (gen_steps QcF QcOps L (fun _ => false)) = (50 # 1)%Q.
-Proof. vm_compute. split; reflexivity. Qed.
+  this (gen_angle QcF QcOps L (fun _ => false)) = (22 # 175)%Q /\
+  o_lt QcOps 0%Qc (L O_getStepsPerTrev) = false /\ o_lt QcOps (L O_getStepsPerTsync) 1%Qc = false.
+Proof. vm_compute. repeat split; reflexivity. Qed.
 End ScalingFamily.
